@@ -195,9 +195,14 @@ impl WTClient {
     }
 
     /// Sets the tower status to any of the `TowerStatus` variants.
+    ///
+    /// A misbehaving tower stays misbehaving: there is a proof of it in the database, which is what the status is built
+    /// from when the towers are loaded, so no later event (e.g. the tower not being reachable) can take the flag away.
     pub fn set_tower_status(&mut self, tower_id: TowerId, status: TowerStatus) {
         if let Some(tower) = self.towers.get_mut(&tower_id) {
-            if tower.status != status {
+            if tower.status.is_misbehaving() && !status.is_misbehaving() {
+                log::debug!("{tower_id} is misbehaving. Not changing its status to {status}")
+            } else if tower.status != status {
                 tower.status = status
             } else {
                 log::debug!("{tower_id} status is already {status}")
